@@ -651,6 +651,45 @@ def check(ctx, run):
                 yield '"%s", "%s"' % (show(a_), show(b_)), env, (lambda r, ev, want=want: "" if r == want else "folds to %s, expected %s" % (r, want))
     prim_rule("StrStr", str_cases, "first occurrence or NULL; reads inside both strings only")
     strstr_rule(prog, run, "R5", hay_len=5 + DEEP, needle_len=3 + DEEP)
+    from .C14 import masked_bits_rule
+    masked_bits_rule(prog, run, "R5", thorough=ctx.thorough)
+
+    # the string's own queries taking another string: textbook answers, reads inside the two buffers only
+    def query_rule(name, oracle, text, maxlen=3):
+        f = prog.fn(SS + "::" + name)
+        run.analysed(f)
+        on = f.params[0]["name"]
+        bad, ncase = None, 0
+        for a_ in strings(maxlen, (97, 98)):
+            for b_ in strings(maxlen, (97, 98)):
+                ncase += 1
+                env = {"buffer_": ("ptr", "A", 0), "bufferSize_": len(a_) + 1, on + ".buffer_": ("ptr", "B", 0), on + ".bufferSize_": len(b_) + 1}
+                put(env, "A", a_)
+                put(env, "B", b_)
+                ta, tb = "".join(map(chr, a_)), "".join(map(chr, b_))
+                ev = Evaluator(prog, f, env=env)
+                ev.inline = INL5
+                try:
+                    ev.run_blocks(f.entry, max_steps=6000)
+                    r = getattr(ev, "ret", None)
+                    if isinstance(r, tuple) and r and r[0] == "unknown":
+                        raise Unknown(r[1])
+                    if isinstance(r, bool):
+                        r = int(r)
+                    why = "" if r == oracle(ta, tb) else "folds to %s, expected %s" % (r, oracle(ta, tb))
+                except Unknown as u:
+                    oob = [k_ for k_ in getattr(ev, "absent_reads", []) if re.match(r"^[AB]\[", k_)] or re.findall(r"(?:^|[ :])([AB]\[-?\d+\])$", str(u))
+                    if not oob:
+                        raise AnalysisBroken("C13.R5: %s cannot be folded on (%r, %r): %s" % (name, ta, tb, u))
+                    why = "reads %s, outside the string (behind its terminator or before its start)" % oob[0]
+                if why and bad is None:
+                    bad = '"%s".%s("%s"): %s' % (ta, name, tb, why)
+        run.ob("R5", "%s folded on %d (string, argument) pairs over {a,b} up to length %d: %s" % (name, ncase, maxlen, text), f.site, bad is None, witness=bad or "%d pairs" % ncase, what=bad or "")
+    query_rule("startsWith", lambda a, b: 1 if a.startswith(b) else 0, "true iff the argument is a prefix; nothing read outside the two strings")
+    query_rule("endsWith", lambda a, b: 1 if a.endswith(b) else 0, "true iff the argument is a suffix (a longer argument never is); nothing read outside the two strings")
+    query_rule("contains", lambda a, b: 1 if b in a else 0, "true iff the argument occurs")
+
+    query_rule("count", lambda a, b: sum(1 for i_ in range(len(a)) if a[i_:].startswith(b)), "the number of positions at which the argument occurs")
 
     def cpy_cases(f):
         for b_ in strings(3 + DEEP, (97, HI)):
